@@ -249,7 +249,7 @@ impl Check for VotesCheck {
                     // the values at the end of the current ledger are now final
                     m.record(cfg.actors);
                     w.advance(*n);
-                    st.ledgers += *n as u64;
+                    st.ledgers += *n as u64; st.hit("clock.advance"); if *n > 100_000 { st.hit("clock.jump"); }
                     kind = "advance";
                     true
                 }
